@@ -1,7 +1,7 @@
 SPECIFICATION Spec
 CONSTANTS
   MaxRegions = 3
-  Kinds = {"magic", "len4", "zigzag", "body"}
+  Kinds = {"magic", "len4", "zigzag", "body", "enc"}
   Widths = {1, 3}
 INVARIANTS LenLaw PrefixLaw SuffixLaw Locality FrameLocality Protocol
 CHECK_DEADLOCK FALSE
